@@ -34,6 +34,10 @@ RecvListed(o) ==
   \/ o.t \in {"Identifier", "CallExpression", "ParenthesisExpression", "ArrayExpression"}
   \/ o.t = "MemberExpression" /\ ~(o.c[2].t = "Identifier" /\ o.c[2].v = "prototype")
 
+(* X.prototype / X?.prototype as the receiver of an optional method call *)
+IsProtoMember(o) == o.t = "MemberExpression" /\ o.c[2].t = "Identifier" /\ o.c[2].v = "prototype"
+RecvIsProto(o) == IsProtoMember(o) \/ (o.t = "OptionalChainingExpression" /\ IsProtoMember(o.c[1]))
+
 IsUndefOrNull(e) == IsIdentNamed(e, "undefined") \/ IsIdentNamed(e, "null")
 AllArgsLiteral(args) == \A i \in 1..Len(args) : IsLit(args[i].c[1]) \/ IsUndefOrNull(args[i].c[1])
 
@@ -80,8 +84,9 @@ Own(n, ctx, cfg) ==
        /\ n.c[1].c[1].t = "OptionalChainingExpression"
        /\ n.c[1].c[1].c[1].t = "MemberExpression"
        /\ n.c[1].c[1].c[1].c[2].t = "Identifier" ->
-         LET m == n.c[1].c[1].c[1].c[2].v IN
-         << Site("optcall", m, n, HasMethod(cfg, m), live, MethodDst(cfg, m)) >>
+         LET m == n.c[1].c[1].c[1].c[2].v
+             o == n.c[1].c[1].c[1].c[1]
+         IN << Site("optcall", m, n, HasMethod(cfg, m), live /\ ~RecvIsProto(o), MethodDst(cfg, m)) >>
     [] OTHER -> <<>>
 
 (* context of child number k of node n *)
